@@ -33,7 +33,7 @@ def frame_records(tier, seed, variant="plain"):
             for f, dv in (("encThrew", False), ("sig", False), ("hsField", -1), ("hvField", -1), ("osField", -1),
                           ("otField", -1), ("emitted", -1), ("padZero", False), ("shapeKept", False), ("consumed", -1),
                           ("decGood", False), ("decThrew", False), ("sameShape", False), ("sameFields", False),
-                          ("reencSame", False), ("decCls", "none"), ("widthTrunc", False), ("ufSame", False)):
+                          ("reencSame", False), ("decCls", "none"), ("widthTrunc", False), ("ufSame", False), ("ownedMembers", [])):
                 r.setdefault(f, dv)
             recs.append(r)
     return recs, None
@@ -88,4 +88,22 @@ def frame_kinds(r):
             k.append("class")
         if not r["ufSame"]:
             k.append("stream")
+        if any(m not in owned_members().get(r["cls"], ()) for m in r["ownedMembers"]):
+            k.append("overwrite")
     return k or ["header"]
+
+
+_owned = None
+
+
+def owned_members():
+    """EncoderOwned of Registry.tla, parsed for labelling only (the decision is TLC's)"""
+    global _owned
+    if _owned is None:
+        import re
+        _owned = {}
+        txt = open(os.path.join(vlib.SPEC, "Registry.tla")).read()
+        txt = txt[txt.index("EncoderOwned(cls) =="):]
+        for m in re.finditer(r'cls = "(\w+)" -> \{([^}]*)\}', txt):
+            _owned[m.group(1)] = set(re.findall(r'"([^"]+)"', m.group(2)))
+    return _owned
